@@ -15,4 +15,7 @@ def run(chk, tier, seed):
 
 
 def replay(path):
+    if "// probe " in open(path).read():
+        from props import c12
+        return c12.replay(path)
     return core.replay("C20", path)
